@@ -191,7 +191,7 @@ static void add_define (const char *, int, const char *); /* implementation in p
 static void add_predefine (char *, int, char *);
 static int expand_define (void);
 static void add_input (const char *);
-static int cond_get_exp (int);
+static int64_t cond_get_exp (int);
 static void inc_lexically_normal (const char* abs_base, const char *name, char *dest);
 static void add_quoted_predefine (char *, char *);
 static void lexerror (char *);
@@ -1745,7 +1745,7 @@ int yylex () {
 
                       *--outptr = '\0';
                       add_input (arg);
-                      cond = cond_get_exp (0);
+                      cond = (cond_get_exp (0) != 0);
                       if (*outptr++)
                         {
                           yyerror ("Condition too complex in #if");
